@@ -13,6 +13,7 @@ from __future__ import annotations
 import datetime as dt_
 import itertools
 
+from .. import worker
 from .. import core, obs
 
 ID = "C09"
@@ -177,9 +178,10 @@ def run_shard(shard):
         n += 1
         if len({v < 0 for v in kw.values() if v}) == 2:
             acc.c["nontrivial"] += 1     # mixed-sign tuple: sign-aware carries are exercised
-        check_tuple(acc, pendulum, kw)
-        if shard.get("abs") and n % 3 == 0:
-            check_tuple(acc, pendulum, kw, absolute=True)
+        with worker.guarded(acc, "construct", {"kind": "tuple", "kw": kw, "abs": False}):
+            check_tuple(acc, pendulum, kw)
+            if shard.get("abs") and n % 3 == 0:
+                check_tuple(acc, pendulum, kw, absolute=True)
         if n == 7:
             acc.sample(kw)
     acc.c["states"] += n
